@@ -93,12 +93,18 @@ Inductive hid :=
 | HBytesMod (b : bytes)                   (* hash_bytes(b) % workers *)
 | HFlow (a b : bytes) (p q : N).          (* a.hash, b.hash, p.hash, q.hash, % workers *)
 
-(* ip_start: 14 when an IPv4/IPv6 ethertype sits at 12..13 of a frame longer than 14 bytes *)
+(* ip_start (fix 1768945): a frame is read as Ethernet only when it can hold the IP header its EtherType announces:
+   (len >= 34 && p[12] == 0x08 && p[13] == 0x00) || (len >= 54 && p[12] == 0x86 && p[13] == 0xDD)   (short-circuit) *)
+Definition eth_announces (p : bytes) (minlen e0 e1 : N) : R bool :=
+  if minlen <=? len p then
+    a <- idx p 12 ;;
+    if b2n a =? e0 then b <- idx p 13 ;; Ok (b2n b =? e1) else Ok false
+  else Ok false.
 Definition ip_start_of (p : bytes) : R N :=
-  if 14 <? len p then
-    a <- idx p 12 ;; b <- idx p 13 ;;
-    Ok (if ((b2n a =? 8) && (b2n b =? 0)) || ((b2n a =? 134) && (b2n b =? 221)) then 14 else 0)
-  else Ok 0.
+  v4 <- eth_announces p 34 8 0 ;;
+  if v4 then Ok 14 else
+  v6 <- eth_announces p 54 134 221 ;;
+  Ok (if v6 then 14 else 0).
 
 Definition hash_source_ip (p : bytes) : R hid :=
   ip_start <- ip_start_of p ;;
